@@ -7,7 +7,7 @@ from hypothesis import given, seed as hseed, strategies as st
 
 from .. import core, pspace
 from ..msref.server import RefServer
-from ..msref.transport import Session
+from ..msref.transport import Session, FakeSocket
 
 PROP = "C16"
 MOD = __name__
@@ -15,7 +15,8 @@ MOD = __name__
 RULE = ("announced SASL lists: every ordered selection of up to 4 of {DIGEST-MD5, PLAIN, LOGIN, OAUTHBEARER, SCRAM-SHA-1, GSSAPI, "
         "X-PLAIN-SUBMIT, XOAUTHBEARER, NTLM-LOGIN} "
         "incl. the empty list and a missing SASL capability (enumerated) x preferred mechanism {None, each implemented, two "
-        "unimplemented names} x Hypothesis unicode credentials (NUL-free; commas, '=', quotes, spaces, non-ASCII; empty or "
+        "unimplemented names} x (for all pairs of lists of at most two mechanisms) an earlier connect of the same Client to a server announcing "
+        "another list x Hypothesis unicode credentials (NUL-free; commas, '=', quotes, spaces, non-ASCII; empty or "
         "non-empty authorisation id) x server verdict; oracle: mechanism-selection rule; payload decoded by reference SASL servers "
         "(RFC 4616 PLAIN, LOGIN, RFC 7628 OAUTHBEARER with RFC 5801 escaping, RFC 2831 DIGEST-MD5 with response= recomputed) equals "
         "the caller's values; connect is True iff the server accepted, Client.authenticated likewise; no AUTHENTICATE when no "
@@ -52,16 +53,24 @@ def expected_mech(sasl, authmech):
     return None
 
 
-def check(sasl, authmech, login, password, authz, verdict, refuse=False, realm="example.org", nonce="OA6MG9tEQGm2hh"):
+def check(sasl, authmech, login, password, authz, verdict, refuse=False, realm="example.org", nonce="OA6MG9tEQGm2hh", first=None):
+    """first = (announced list, verdict) of a server the same Client connected to before."""
     cfg = {"sasl": sasl, "auth_ok": verdict, "password": password, "realm": realm, "nonce": nonce}
     if refuse:
         # the server answers the initial AUTHENTICATE of whatever mechanism with NO
         cfg["faults"] = [(b"AUTHENTICATE", 0, "NO")]
         verdict = False
     srv = RefServer(cfg)
-    s = Session(srv)
+    if first is not None:
+        srv0 = RefServer({"sasl": first[0], "auth_ok": first[1], "password": "pw0"})
+        s = Session(srv0)
+        s.call("connect", "user0", "pw0")
+        s.peer = srv
+        s.sock = FakeSocket(srv)
+    else:
+        s = Session(srv)
     res = s.call("connect", login, password, authz, authmech=authmech)
-    det = {"sasl": sasl, "authmech": authmech, "login": login, "password": password, "authz_id": authz, "server_accepts": verdict,
+    det = {"earlier_connection_of_the_same_client": first, "sasl": sasl, "authmech": authmech, "login": login, "password": password, "authz_id": authz, "server_accepts": verdict,
            "result": res, "attempts": srv.auth_attempts, "decoded": srv.auth_record, "violations": srv.violations,
            "written": s.sock.written()}
     authenticated = s.client.authenticated
@@ -161,11 +170,39 @@ def worker(arg):
             col.case(key=None, nontrivial=len([m for m in (sasl or []) if m in IMPL]) >= 2, classes=["selection-exhaustive", "mech:%s" % exp])
             for b, d in fails:
                 col.fail(b, {"sasl": sasl, "authmech": authmech, "login": "user", "password": "secret", "authz": "", "verdict": True}, d, size=5 * len(sasl or []))
+    # the same Client connecting a second time, to a server announcing something else:
+    # every pair of short lists x authmech x outcome of the first connect
+    sl = small_lists()
+    pairs = [(a, b) for a in sl for b in sl if a != b]
+    for i, (l0, l1) in enumerate(pairs):
+        if i % nshards != idx:
+            continue
+        for authmech in AUTHMECHS[:6]:
+            for v0 in (True, False):
+                first = (l0, v0)
+                fails, exp = check(l1, authmech, "user", "secret", "", True, first=first)
+                col.case(key=None, nontrivial=True, classes=["second-connect", "mech:%s" % exp])
+                for b, d in fails:
+                    col.fail(b + "|second-connect", {"sasl": l1, "authmech": authmech, "login": "user", "password": "secret", "authz": "", "verdict": True,
+                                                    "first": list(first)}, d, size=5 * len(l1 or []) + 5 * len(l0 or []))
     return col
 
 
+def small_lists():
+    out = [None, []]
+    pool = IMPL + ["SCRAM-SHA-1"]
+    for k in (1, 2):
+        for p in itertools.permutations(pool, k):
+            out.append(list(p))
+    return out
+
+
 def replay(case):
-    return check(case["sasl"], case["authmech"], case["login"], case["password"], case["authz"], case["verdict"], case.get("refuse", False), case.get("realm", "example.org"), case.get("nonce", "OA6MG9tEQGm2hh"))[0]
+    first = case.get("first")
+    if first is not None:
+        first = (first[0], first[1])
+    return check(case["sasl"], case["authmech"], case["login"], case["password"], case["authz"], case["verdict"], case.get("refuse", False),
+                 case.get("realm", "example.org"), case.get("nonce", "OA6MG9tEQGm2hh"), first=first)[0]
 
 
 def main(tier, seed, t0):
@@ -173,7 +210,7 @@ def main(tier, seed, t0):
     n = 16
     col = core.run_shards(worker, [(k, n, seed * 1000 + 1600 + k, 6 if quick else 60) for k in range(n)])
     need = ["mech:" + m for m in IMPL] + ["mech:None", "sasl:missing", "sasl:empty", "authz:nonempty", "verdict:True", "verdict:False",
-                                           "selection-exhaustive"]
+                                           "selection-exhaustive", "second-connect"]
     missing = [c for c in need if not col.classes.get(c)]
     if missing:
         raise core.HarnessError("generator classes empty: %s" % missing)
